@@ -26,7 +26,7 @@ SYMS = ["rx0A", "rx0B", "rx1C", "close0", "txA", "txB", "txT", "aa3F", "aa3E", "
 SYMS_LITE = ["rx0A", "rx0B", "rx1C", "close0", "txA", "txB", "txT", "lisT", "lisF"]
 RULE = ("breadth-first small-scope sweep: all sequences over the 12-symbol alphabet {open_rx_pipe(0,A|B), "
         "open_rx_pipe(1,C), close_rx_pipe(0), open_tx_pipe(A|B|T), auto_ack=0x3F|0x3E|0, listen=True|False} to depth 5 "
-        "(quick) / 6 (thorough), seeded sequences to depth 12 beyond; per run a seeded address width 3..5 and address "
+        "(quick) / 6 (thorough), seeded sequences to depth 12 beyond (these also with ack = True/False and power = False/True: waking a radio configured as a receiver is an RX entry); per run a seeded address width 3..5 and address "
         "family (distinct, TX sharing bytes with A, shorter than the width, TX equal to A) and a seeded cost of one SPI transaction (30 / 150 / 400 us). Non-trivial: an RX entry or "
         "a TX-mode open_tx_pipe was checked; distinct = distinct (sequence, address family, width)")
 ASSUMPTIONS = ["chip/air model decision M2 (a PTX accepts an ACK only on enabled pipe 0 with RX_ADDR_P0 = TX_ADDR)",
@@ -74,7 +74,8 @@ def make(i, base_seed, tier, lite=False):
         kind = "bfs"
     else:
         # beyond the swept alphabet: ACK payloads switched on / off (`ack = True` also enables auto-ack on pipe 0)
-        ops = [rng.choice(syms + (["ackT", "ackT", "ackF"] if not lite else ["ackT", "ackF"])) for _ in range(rng.randint(5, 12))]
+        # ... and, for the full driver, the application's power switch: waking a radio whose CONFIG says "receiver" is an RX entry too
+        ops = [rng.choice(syms + (["ackT", "ackT", "ackF", "pwrF", "pwrT", "pwrT"] if not lite else ["ackT", "ackF"])) for _ in range(rng.randint(5, 12))]
         kind = "random"
     # MCU personality: cost of one SPI transaction. With CircuitPython-class costs a single transaction outlasts the radio's
     # 130 us RX settling time, so the order of the register writes inside a role change becomes observable on the air
@@ -149,6 +150,7 @@ def _run(scn, w, res):
         mark = len(ru.ce_log)
         rmark = len(ru.rx_reconf)
         user0_before, tx_before = user0, tx
+        woke_in_rx = False
         if op == "lisT":
             tx_opened_in_rx = False
         sim.log("call", "U", op)
@@ -176,19 +178,28 @@ def _run(scn, w, res):
             aa |= 1               # documented: ACK payloads need (and switch on) auto-ack and dynamic payloads on pipe 0
         elif op == "ackF":
             uut.ack = False
+        elif op == "pwrF":
+            uut.power = False
+            powered = False
+        elif op == "pwrT":
+            uut.power = True
+            woke_in_rx = role == "rx" and not powered
+            powered = True
         elif op == "lisT":
             uut.listen = True
             role = "rx"
+            powered = True
         elif op == "lisF":
             uut.listen = False
             role = "tx"
+            powered = True
         # ---- ce clause
         for ent in ru.ce_log[mark:]:
             if ent[1] == "config" and (ent[2] ^ ent[3]) & 1 and ent[4]:
                 res.add("ce", {"kind": "role_change_with_ce_high", "op": op}, "CONFIG.PRIM_RX changed while CE was high during %s" % op)
-            if ent[1] == "ce" and ent[2] is False and role == "rx" and not op.startswith("lis"):
+            if ent[1] == "ce" and ent[2] is False and role == "rx" and not op.startswith("lis") and op != "pwrF":
                 res.add("ce", {"kind": "ce_dropped_in_rx", "op": op}, "CE lowered by %s while in RX mode" % op)
-        if role == "rx" and not ru.ce:
+        if role == "rx" and powered and not ru.ce:
             res.add("ce", {"kind": "ce_low_in_rx", "op": op}, "CE is low after %s although the radio is in RX mode" % op)
         # ---- rx_pipe0: on entering RX mode
         if op == "lisT" or (role == "rx" and not tx_opened_in_rx):
@@ -207,6 +218,17 @@ def _run(scn, w, res):
                             "%s: the receiver had been active for %d us with pipe 0 enabled on the TX address %s before pipe 0 was %s (one SPI transaction costs %d us here)"
                             % (op, active_ns // 1000, old_addr[:aw].hex(), "closed" if what == "enable" else "set to %s" % bytes(new)[:aw].hex(), scn.get("spi_us", 30)))
                     break
+        if woke_in_rx:
+            # power = True on a radio configured as a receiver: it is listening again - on whatever pipe 0 holds
+            sim.count("woken_in_rx_mode")
+            checked += 1
+            if user0 is None and ru.r[2] & 1:
+                res.add("rx_pipe0", {"kind": "open_but_never_opened_or_closed", "entry": "power"},
+                        "pipe 0 is enabled on %s when the radio wakes up in RX mode although the user never opened it / closed it (TX address %s)"
+                        % (ru.pipe_addr(0).hex(), tx.hex() if tx else None))
+            elif user0 is not None and not tx_opened_in_rx and ru.r[2] & 1 and bytes(ru.a[0x0A][: len(user0)]) != user0:
+                res.add("rx_pipe0", {"kind": "wrong_address", "is_tx": tx is not None and bytes(ru.a[0x0A][: len(tx)]) == tx, "entry": "power"},
+                        "the radio wakes up in RX mode with pipe 0 on %s, user opened it with %s (TX address %s)" % (ru.pipe_addr(0).hex(), user0.hex(), tx.hex() if tx else None))
         if op == "lisT":
             checked += 1
             en0 = bool(ru.r[2] & 1)
@@ -232,7 +254,7 @@ def _run(scn, w, res):
                 if got:
                     res.add("rx_pipe0", {"kind": "listens_on_tx_address"}, "probe to the TX address %s was received on pipe %r in RX mode" % (tx[:aw].hex(), got))
         # ---- tx_ack: right after open_tx_pipe in TX mode with auto-ack on pipe 0
-        if op.startswith("tx") and role == "tx" and (aa & 1):
+        if op.startswith("tx") and role == "tx" and powered and (aa & 1):
             checked += 1
             en0 = bool(ru.r[2] & 1)
             reg = bytes(ru.a[0x0A][: len(tx)])
